@@ -789,3 +789,85 @@ theorem note_span (s : MmlState) (hs : Sane s) (l : Nat) (hl : l < 8) (a : Acc) 
   finish
 
 end Ctrmml.Mml
+
+namespace Ctrmml.Mml
+open Ctrmml.Tables Ctrmml.Lexer Ctrmml.TrackBuilder
+open Ctrmml.MmlMeaning (Num Dur Acc Cmd Simple dotsBytes)
+
+/-! ### one iteration of `parse_mml_track` -/
+
+theorem lookup_insertTrack (id : Nat) (t : Track) (l : List (Nat × Track)) : (insertTrack id t l).lookup id = some t := by
+  induction l with
+  | nil => simp [insertTrack, List.lookup]
+  | cons kv rest ih =>
+    obtain ⟨k, v⟩ := kv
+    unfold insertTrack
+    by_cases h1 : id < k
+    · simp [h1, List.lookup]
+    · by_cases h2 : id = k
+      · subst h2; simp [List.lookup]
+      · simp only [h1, h2, if_false]
+        have : (id == k) = false := by simpa using h2
+        simp [List.lookup, this, ih]
+
+@[simp] theorem getTrack_setTrack (s : MmlState) (t : Track) : getTrack (setTrack s t) = t := by
+  simp [getTrack, setTrack, lookup_insertTrack]
+
+theorem countBlanks_pad (k : Nat) (c : Nat) (r : List Nat) (hc : 33 ≤ c ∧ c < 128) :
+    LineBuffer.countBlanks (List.replicate k 32 ++ c :: r) = k := by
+  induction k with
+  | zero => simp [LineBuffer.countBlanks, not_blank_of_range c hc]
+  | succ k ih =>
+    have : isBlank (schar 32) = true := by decide
+    simp [List.replicate_succ, LineBuffer.countBlanks, this, ih]
+
+theorem getTokenC_pad (s : MmlState) (k : Nat) (c : Nat) (r : List Nat)
+    (h : suffix s = List.replicate k 32 ++ c :: r) (hc : 33 ≤ c ∧ c < 128) :
+    getTokenC s = .ok (c : Int) (adv s (k + 1)) := by
+  have hs' : suffix (adv s k) = c :: r := by
+    rw [suffix_adv, h]; simp
+  rw [getTokenC_eq, h, countBlanks_pad k c r hc, getC_cons _ c r hs', schar_small c hc.2, adv_adv]
+
+/-- the command characters `parse_mml_track` handles itself -/
+def NotLoopChar (c : Nat) : Prop := c ≠ 124 ∧ c ≠ 59 ∧ c ≠ 47 ∧ c ≠ 125 ∧ c ≠ 123 ∧ c ≠ 37
+
+theorem step_basic (f : Nat) (s : MmlState) (hs : Sane s) (k c : Nat) (r : List Nat)
+    (hsuf : suffix s = List.replicate k 32 ++ c :: r) (hc : 33 ≤ c ∧ c < 128) (hn : NotLoopChar c) (s2 : MmlState)
+    (hbasic : mmlBasic (setTrack (adv s k)
+        ((getTrack s).setReference (some { line := s.inp.line, column := s.inp.lb.column + k }))) = .ok false s2) :
+    parseMmlTrackF (f + 1) s = parseMmlTrackF f s2 := by
+  obtain ⟨h1, h2, h3, h4, h5, h6⟩ := hn
+  have hsk : suffix (adv s k) = c :: r := by rw [suffix_adv, hsuf]; simp
+  have e0 : ((c : Int) == 0) = false := by
+    have : ¬ ((c : Int) = 0) := by omega
+    simpa using this
+  have e124 : ((c : Int) == 124) = false := by
+    have : ¬ ((c : Int) = 124) := by omega
+    simpa using this
+  have e59 : ((c : Int) == 59) = false := by
+    have : ¬ ((c : Int) = 59) := by omega
+    simpa using this
+  have e47 : ((c : Int) == 47) = false := by
+    have : ¬ ((c : Int) = 47) := by omega
+    simpa using this
+  have e125 : ((c : Int) == 125) = false := by
+    have : ¬ ((c : Int) = 125) := by omega
+    simpa using this
+  have e123 : ((c : Int) == 123) = false := by
+    have : ¬ ((c : Int) = 123) := by omega
+    simpa using this
+  have e37 : ((c : Int) == 37) = false := by
+    have : ¬ ((c : Int) = 37) := by omega
+    simpa using this
+  unfold parseMmlTrackF
+  rw [bind_ok (getTokenC_pad s k c r hsuf hc), bind_ok (getS_run _)]
+  simp only [e124, e59, e47, e125, e123, e37, e0, Bool.false_eq_true, if_false, Bool.or_self, Bool.false_and]
+  rw [← adv_adv, ← schar_small c hc.2, bind_ok (ungetC_same (adv s k) hs.bytes c r hsk), bind_ok (getS_run _)]
+  rw [bind_ok (trackOp_ok _ _ _ "" rfl)]
+  have hst : setTrack (adv s k) (Track.setReference (getTrack (adv s k)) (some (adv s k).inp.getReference)) =
+      setTrack (adv s k) ((getTrack s).setReference (some { line := s.inp.line, column := s.inp.lb.column + k })) := rfl
+  rw [hst, bind_ok hbasic]
+  simp only [beq_self_eq_true, if_true]
+  cases f <;> rfl
+
+end Ctrmml.Mml
